@@ -166,7 +166,14 @@ fn check_case(ctx: &mut Ctx, g: &Gram, specs: &[InputSpec]) -> Result<(), Fail> 
 /// furthest position and >= 4 failing children under one rule (the collapse threshold).
 fn wide_choice_grammar() -> proptest::strategy::BoxedStrategy<Gram> {
     use proptest::prelude::*;
-    let lit = prop_oneof![Just("a"), Just("b"), Just("c"), Just("é"), Just("ab"), Just("1")].prop_map(|s| GE::Str(s.to_string()));
+    let lit = prop_oneof![
+        12 => prop_oneof![Just("a"), Just("b"), Just("c"), Just("é"), Just("ab"), Just("1")].prop_map(|s| GE::Str(s.to_string())),
+        // long literals with multi-byte text around byte 32 (messages that clip or slice tokens)
+        1 => (24usize..36, any::<bool>()).prop_map(|(n, ins)| {
+            let s = format!("{}éé€ß", "x".repeat(n));
+            if ins { GE::Insens(s) } else { GE::Str(s) }
+        }),
+    ];
     let leafrule = prop_oneof![
         4 => lit.clone(),
         1 => (lit.clone(), lit.clone()).prop_map(|(a, b)| GE::Seq(Box::new(a), Box::new(b))),
